@@ -372,6 +372,17 @@ func main() {
 	o.def("recorderConfigFields", "String", lstr(rcFields), "recorder.NewConfig: the RecorderConfig literal")
 	o.def("recorderConfigValidate", "String", lstr(condOf(rcGo, "validate", "MaxSecs")), "RecorderConfig.validate: the rejected case")
 
+	// ---- MotionProcessor.Reset: a camera reset ends the recording and ALWAYS restarts the detector (C09, C15)
+	resetBody := "<missing>"
+	if fd := funcDecl(procGo, "Reset"); fd != nil && fd.Body != nil {
+		var parts []string
+		for _, st := range fd.Body.List {
+			parts = append(parts, strings.Join(strings.Fields(src(st)), " "))
+		}
+		resetBody = strings.Join(parts, ";")
+	}
+	o.def("processorResetBody", "String", lstr(resetBody), "MotionProcessor.Reset: the statements of its body")
+
 	// ---- frameParser: which parser handles which camera (C13)
 	fpMap := "<missing>"
 	if fd := funcDecl(trMain, "frameParser"); fd != nil {
